@@ -14,7 +14,18 @@ META = {
             "as an explicit hypothesis structure GcTransparent (a relation R preserved by run_one and absorbed by run_gc); "
             "it is unconditional for a no-op collector and is what C03 establishes for the real one (there by theorem for "
             "mark/sweep safety plus exploration). The loop model is hand-written and tied to the code by correspondence; "
-            "the instruction semantics is a parameter, so nothing about run_one is assumed.",
+            "the instruction semantics is a parameter, so nothing about run_one is assumed. "
+            "T13.3 for the real collector model: gcTransparent_concrete_partial instantiates GcTransparent for the concrete "
+            "machine (run_one over Vm/ConcreteHeap.lean, gc = the C03 model Heap.runGc) with R = 'equal up to a partial "
+            "injection on heap addresses' (heap simulation, Lemmas/Sim*.lean): the collector clause gc_left is a closed "
+            "theorem; the instruction clause is closed for all 16 opcodes (incl. the allocating CONS VARARG CLOSURE ENTER "
+            "call/cc, apply, symbol interning) GIVEN the explicit hypothesis ExtLaws = the law 'respects the simulation' "
+            "of the four non-modelled parameters (builtinKind, builtinEval: 139 generic Rust procedures, compileEval: "
+            "eval's compiler, vectorPush: VPUSH through an aliased Rc); the side conditions assumed of every state along "
+            "both runs are the explicit hypothesis Safe (heap below 2^63 cells, WFHeap/RootsOk of the erased heap, kind "
+            "disciplines Plain and NoIofArg, bp-relative reads at or below sp); reflexivity is proved (sim_refl). Hence "
+            "the *_partial names; sliced_value_eq_uninterrupted_partial is the closed-form corollary (same HALT, equal "
+            "datum read from acc).",
     "technique": "Lean 4 proof (generic refinement of the run_count loop to a collection-free reference, any budgets) + differential sliced-vs-uninterrupted runs and loop-trace correspondence",
 }
 MODULE = "Marwood.Proofs.C13"
@@ -27,6 +38,14 @@ THEOREMS = [
     "Marwood.Proofs.C13.sliced_equiv_uninterrupted_done",
     "Marwood.Proofs.C13.sliced_equiv_uninterrupted_error",
     "Marwood.Proofs.C13.gcTransparent_id",
+    "Marwood.Proofs.C13.gcTransparent_concrete_partial",
+    "Marwood.Proofs.C13.sliced_sim_pure_partial",
+    "Marwood.Proofs.C13.sliced_equiv_uninterrupted_concrete_partial",
+    "Marwood.Proofs.C13.sliced_value_eq_uninterrupted_partial",
+    "Marwood.Lemmas.Sim.cgc_sim",
+    "Marwood.Lemmas.Sim.step_sim",
+    "Marwood.Lemmas.Sim.execSim_all",
+    "Marwood.Lemmas.Sim.sim_refl",
 ]
 
 
